@@ -114,6 +114,15 @@ fn vec_znx_normalize_inter_base2k<R, A, ZNXARI>(
         ZNXARI::znx_zero(carry);
     }
 
+    // Shifts that move the whole of `a` more than one limb below the last limb of `res`: the limb
+    // positions in between hold no input, the carry is reduced through each of them.
+    for _ in 0..(if a_out_range != 0 && a_start == 0 { (-limbs_offset - res_size as i64).max(0) as usize } else { 0 }) {
+        carry.iter_mut().for_each(|c| {
+            let digit: i64 = crate::reference::znx::get_digit_i64(base2k, *c);
+            *c = crate::reference::znx::get_carry_i64(base2k, *c, digit);
+        });
+    }
+
     // Zeroes bottom limbs that will not be interacted with
     for j in res_start..res_size {
         ZNXARI::znx_zero(res.at_mut(res_col, j));
